@@ -90,7 +90,23 @@ pub fn flags_for(cfg: &Cfg, rng: &mut Rng) -> Vec<String> {
         units.push(if rng.chance(1, 2) { vec!["--min-substring-length".into(), v] } else { vec![format!("--min-substring-length={}", v)] });
     }
     rng.shuffle(&mut units);
-    units.into_iter().flatten().collect()
+    let mut flat: Vec<String> = units.into_iter().flatten().collect();
+    // neighbouring single-letter flags may be written as one word (-dw)
+    if rng.chance(1, 3) {
+        let mut merged: Vec<String> = vec![];
+        for a in flat.into_iter() {
+            let short = |x: &str| x.len() == 2 && x.starts_with('-') && x != "--" && x.as_bytes()[1].is_ascii_alphabetic();
+            if let Some(last) = merged.last_mut() {
+                if short(&a) && last.starts_with('-') && !last.starts_with("--") && last.len() >= 2 && last[1..].chars().all(|c| c.is_ascii_alphabetic()) && rng.chance(2, 3) {
+                    last.push_str(&a[1..]);
+                    continue;
+                }
+            }
+            merged.push(a);
+        }
+        flat = merged;
+    }
+    flat
 }
 
 /// CLI-reachable configurations only (surrogates need escape; thresholds >= 1).
@@ -237,6 +253,9 @@ pub fn make_case(channel: &str, lines: &[String], content: &[u8], cfg: &Cfg, rng
     // allow_hyphen_values, so by design everything after the first positional value is taken as input.
     let _ = flags_first;
     argv.extend(flags);
+    if channel == "args" && rng.chance(1, 4) {
+        argv.push("--".into()); // end of options: what follows are values
+    }
     argv.extend(input_args);
     Case {
         target: "grex".into(),
@@ -259,6 +278,10 @@ pub fn make_case(channel: &str, lines: &[String], content: &[u8], cfg: &Cfg, rng
         stdin_offset: 0,
         relative_path: false,
         cwd: None,
+        file_name_hex: String::new(),
+        rlimit_as_mb: 0,
+        argv_os: vec![],
+        path_bytes: vec![],
         note: String::new(),
     }
 }
@@ -285,6 +308,10 @@ pub fn make_probe_case(content: &[u8], cfg: &Cfg, rng: &mut Rng) -> Case {
         stdin_offset: 0,
         relative_path: false,
         cwd: None,
+        file_name_hex: String::new(),
+        rlimit_as_mb: 0,
+        argv_os: vec![],
+        path_bytes: vec![],
         note: String::new(),
     }
 }
